@@ -9,7 +9,7 @@ use crate::core::*;
 use crate::rng::{Digest, Rng};
 use crate::sched::{self, Outcome, Strategy};
 use chia_bls::{aggregate, sign, BlsCache, PublicKey, Signature};
-use chia_consensus::conditions::{parse_spends, EmptyVisitor};
+use chia_consensus::conditions::{parse_spends, EmptyVisitor, MempoolVisitor};
 use chia_consensus::consensus_constants::{ConsensusConstants, TEST_CONSTANTS};
 use chia_consensus::flags::{ConsensusFlags, MEMPOOL_MODE};
 use chia_consensus::make_aggsig_final_message::make_aggsig_final_message;
@@ -48,6 +48,10 @@ pub struct SpendSpec {
     pub parent_seed: u64,
     pub amount: u64,
     pub conds: Vec<CondSpec>,
+    /// false: puzzle `1`, solution = conditions; true: puzzle `(q . conditions)`, solution nil
+    /// (the puzzle hash then differs from coin to coin)
+    #[serde(default)]
+    pub quoted: bool,
 }
 
 /// In-flight tampering, applied after the wallet signed.
@@ -91,6 +95,12 @@ pub struct Case {
     pub constants_seed: u64,
     pub capacity: u32,
     pub cost_conditions: bool,
+    /// parse_spends with the MempoolVisitor instead of the EmptyVisitor
+    #[serde(default)]
+    pub mempool_visitor: bool,
+    /// bit 0: LIMIT_SPENDS, bit 1: SIMPLE_GENERATOR (the generator is a plain quote, so both are harmless)
+    #[serde(default)]
+    pub extra_flags: u8,
     pub bundles: Vec<BundleSpec>,
     pub prefix: Vec<Party>,
     pub threads: Vec<Vec<Party>>,
@@ -235,6 +245,19 @@ struct DSpend {
     parent: [u8; 32],
     amount: u64,
     conds: Vec<DCond>,
+    quoted: bool,
+}
+
+/// puzzle hash of a spend as it stands (for a quoted puzzle it depends on the conditions)
+fn spend_ph(s: &DSpend) -> [u8; 32] {
+    if !s.quoted {
+        return puzzle_hash_of_1();
+    }
+    let mut a = Allocator::new();
+    let conds = cond_list(&mut a, s);
+    let q = a.new_atom(&[1]).unwrap();
+    let puzzle = a.new_pair(q, conds).unwrap();
+    clvm_utils::tree_hash(&a, puzzle).to_bytes()
 }
 
 /// What reaches the validators, plus what the wallet actually signed.
@@ -262,7 +285,6 @@ fn flat_index(spends: &[DSpend], cond: u8) -> Option<(usize, usize)> {
 
 fn deliver(b: &BundleSpec, consts: &ConsensusConstants, d: &[[u8; 32]; 7]) -> Delivered {
     let p = pool();
-    let ph = puzzle_hash_of_1();
     let mut spends: Vec<DSpend> = b
         .spends
         .iter()
@@ -270,13 +292,15 @@ fn deliver(b: &BundleSpec, consts: &ConsensusConstants, d: &[[u8; 32]; 7]) -> De
             parent: sha(&[b"c05parent", &s.parent_seed.to_le_bytes()]),
             amount: s.amount,
             conds: s.conds.iter().map(|c| DCond { opcode: c.opcode, key: c.key.clone(), msg: hex::decode(&c.msg).unwrap_or_default() }).collect(),
+            quoted: s.quoted,
         })
         .collect();
     // a tampering that is part of what the wallet signs
     if let Tamper::UnsafeSuffix { cond, which } = &b.tamper {
         if let Some((i, j)) = flat_index(&spends, *cond) {
             spends[i].conds[j].opcode = 49;
-            let mut m = spends[i].conds[j].msg.clone();
+            // which >= 7: the message is exactly the constant
+            let mut m = if *which >= 7 { vec![] } else { spends[i].conds[j].msg.clone() };
             m.extend_from_slice(&d[*which as usize % 7]);
             spends[i].conds[j].msg = m;
         }
@@ -290,6 +314,7 @@ fn deliver(b: &BundleSpec, consts: &ConsensusConstants, d: &[[u8; 32]; 7]) -> De
         _ => None,
     };
     for (i, s) in spends.iter().enumerate() {
+        let ph = spend_ph(s);
         let owned = OwnedSpendConditions {
             coin_id: Bytes32::new(sha(&[&s.parent, &ph, &int_atom(s.amount)])),
             parent_id: Bytes32::new(s.parent),
@@ -381,11 +406,11 @@ struct Truth {
 
 /// Expected verdict, by construction, computed from the bundle as delivered.
 fn truth(dl: &Delivered, d: &[[u8; 32]; 7]) -> Truth {
-    let ph = puzzle_hash_of_1();
     let mut pairs = vec![];
     let mut bad_key = false;
     let mut unsafe_suffix = false;
     for s in &dl.spends {
+        let ph = spend_ph(s);
         for c in &s.conds {
             let m = reference_message(c.opcode, &c.msg, &s.parent, &ph, s.amount, d);
             if c.opcode == 49 && d.iter().any(|k| c.msg.ends_with(k)) {
@@ -439,27 +464,28 @@ struct Built {
     generator: Vec<u8>,
     bundle: SpendBundle,
     signature: Signature,
+    mempool_visitor: bool,
 }
 
-fn build(dl: &Delivered) -> Built {
-    let ph = puzzle_hash_of_1();
+fn build(dl: &Delivered, mempool_visitor: bool) -> Built {
     let mut a = Allocator::new();
     let mut tree_items = vec![];
     let mut gen_items = vec![];
     let mut coin_spends = vec![];
     for s in &dl.spends {
+        let ph = spend_ph(s);
         let conds = cond_list(&mut a, s);
         let parent = a.new_atom(&s.parent).unwrap();
         let phn = a.new_atom(&ph).unwrap();
         let am = a.new_atom(&int_atom(s.amount)).unwrap();
         tree_items.push(list(&mut a, &[parent, phn, am, conds]));
-        let puzzle = a.new_atom(&[1]).unwrap();
-        gen_items.push(list(&mut a, &[parent, puzzle, am, conds]));
-        let solution = node_to_bytes(&a, conds).unwrap();
+        let one = a.new_atom(&[1]).unwrap();
+        let (puzzle, solution) = if s.quoted { (a.new_pair(one, conds).unwrap(), a.nil()) } else { (one, conds) };
+        gen_items.push(list(&mut a, &[parent, puzzle, am, solution]));
         coin_spends.push(CoinSpend::new(
             Coin::new(Bytes32::new(s.parent), Bytes32::new(ph), s.amount),
-            Program::from(vec![1u8]),
-            Program::from(solution),
+            Program::from(node_to_bytes(&a, puzzle).unwrap()),
+            Program::from(node_to_bytes(&a, solution).unwrap()),
         ));
     }
     let tl = list(&mut a, &tree_items);
@@ -473,25 +499,35 @@ fn build(dl: &Delivered) -> Built {
         generator: node_to_bytes(&a, generator).unwrap(),
         bundle: SpendBundle::new(coin_spends, dl.signature.clone()),
         signature: dl.signature.clone(),
+        mempool_visitor,
     }
 }
 
 const MAX_COST: u64 = 11_000_000_000;
 
 fn block_flags(case: &Case) -> ConsensusFlags {
-    if case.cost_conditions {
-        ConsensusFlags::COST_CONDITIONS
-    } else {
-        ConsensusFlags::empty()
+    let mut f = if case.cost_conditions { ConsensusFlags::COST_CONDITIONS } else { ConsensusFlags::empty() };
+    if case.extra_flags & 1 != 0 {
+        f |= ConsensusFlags::LIMIT_SPENDS;
     }
+    if case.extra_flags & 2 != 0 {
+        f |= ConsensusFlags::SIMPLE_GENERATOR;
+    }
+    f
 }
 
 fn path_parse_spends(b: &Built, cache: Option<&BlsCache>, k: &ConsensusConstants, flags: ConsensusFlags) -> Result<(), String> {
     let mut a = Allocator::new();
     let tree = clvmr::serde::node_from_bytes(&mut a, &b.spends_tree).map_err(|e| format!("{e:?}"))?;
-    parse_spends::<EmptyVisitor>(&a, tree, MAX_COST, 0, flags, &b.signature, cache, k)
-        .map(|_| ())
-        .map_err(|e| format!("{:?}", e.error_code()))
+    if b.mempool_visitor {
+        parse_spends::<MempoolVisitor>(&a, tree, MAX_COST, 0, flags, &b.signature, cache, k)
+            .map(|_| ())
+            .map_err(|e| format!("{:?}", e.error_code()))
+    } else {
+        parse_spends::<EmptyVisitor>(&a, tree, MAX_COST, 0, flags, &b.signature, cache, k)
+            .map(|_| ())
+            .map_err(|e| format!("{:?}", e.error_code()))
+    }
 }
 
 fn path_generator(b: &Built, cache: Option<&BlsCache>, k: &ConsensusConstants, flags: ConsensusFlags) -> Result<(), String> {
@@ -681,7 +717,7 @@ impl C05 {
             }
         }
         let truths: Arc<Vec<Truth>> = Arc::new(delivered.iter().map(|dl| truth(dl, &dconst)).collect());
-        let built: Arc<Vec<Built>> = Arc::new(delivered.iter().map(build).collect());
+        let built: Arc<Vec<Built>> = Arc::new(delivered.iter().map(|dl| build(dl, case.mempool_visitor)).collect());
         for (i, t) in truths.iter().enumerate() {
             d.u64(u64::from(t.accept));
             if t.accept { c.inc("bundles.expected_accept") } else { c.inc("bundles.expected_reject") }
@@ -907,21 +943,40 @@ const AMOUNTS: [u64; 18] = [
     u64::MAX,
 ];
 
-fn gen_msg(rng: &mut Rng) -> Vec<u8> {
-    match rng.below(6) {
-        0 => vec![],
-        1 => vec![rng.below(256) as u8],
-        2 => rng.bytes(32),
-        3 => rng.bytes(31),
-        4 => {
+fn gen_msg(rng: &mut Rng, d: &[[u8; 32]; 7]) -> Vec<u8> {
+    match rng.below(12) {
+        0 | 1 => vec![],
+        2 => vec![rng.below(256) as u8],
+        3 | 4 => rng.bytes(32),
+        5 => rng.bytes(31),
+        6 => {
             let n = 33 + rng.usize_below(40);
+            rng.bytes(n)
+        }
+        // the tail of a domain constant (1-31 bytes): not a forbidden suffix
+        7 => {
+            let k = d[rng.usize_below(7)];
+            let n = 1 + rng.usize_below(31);
+            k[32 - n..].to_vec()
+        }
+        // ends in all but the first byte of a constant: a near miss
+        8 => {
+            let k = d[rng.usize_below(7)];
+            let n = rng.usize_below(8);
+            let mut m = rng.bytes(n);
+            m.extend_from_slice(&k[1..]);
+            m
+        }
+        // long messages, up to the 1024 byte limit
+        9 => {
+            let n = *rng.pick(&[255usize, 256, 1000, 1023, 1024]);
             rng.bytes(n)
         }
         _ => b"hello".to_vec(),
     }
 }
 
-fn gen_bundle(rng: &mut Rng, parent_counter: &mut u64, tamper_pct: u64) -> BundleSpec {
+fn gen_bundle(rng: &mut Rng, parent_counter: &mut u64, tamper_pct: u64, d: &[[u8; 32]; 7]) -> BundleSpec {
     let nspends = match rng.below(6) {
         0..=2 => 1,
         3 | 4 => 2,
@@ -936,11 +991,12 @@ fn gen_bundle(rng: &mut Rng, parent_counter: &mut u64, tamper_pct: u64) -> Bundl
     let shared_amount = *rng.pick(&AMOUNTS);
     for _ in 0..nspends {
         *parent_counter += 1;
-        let nconds = match rng.below(8) {
-            0 => 0,
-            1..=4 => 1,
-            5 | 6 => 2,
-            _ => 3,
+        let nconds = match rng.below(80) {
+            0..=9 => 0,
+            10..=49 => 1,
+            50..=69 => 2,
+            70..=78 => 3,
+            _ => rng.range(4, 12) as usize,
         };
         let mut conds: Vec<CondSpec> = vec![];
         for _ in 0..nconds {
@@ -956,10 +1012,15 @@ fn gen_bundle(rng: &mut Rng, parent_counter: &mut u64, tamper_pct: u64) -> Bundl
                 1 => KeySpec::Garbage(rng.below(256)),
                 _ => KeySpec::Pool(rng.below(3) as u8),
             };
-            conds.push(CondSpec { opcode: *rng.pick(&ops), key, msg: hex::encode(gen_msg(rng)) });
+            conds.push(CondSpec { opcode: *rng.pick(&ops), key, msg: hex::encode(gen_msg(rng, d)) });
         }
         let amount = if rng.chance(1, 3) { shared_amount } else { *rng.pick(&AMOUNTS) };
-        spends.push(SpendSpec { parent_seed: *parent_counter, amount, conds });
+        // sometimes the same parent as the previous spend, with a different amount
+        let parent_seed = match spends.last() {
+            Some(prev) if rng.chance(1, 8) && { let p: &SpendSpec = prev; p.amount != amount } => prev.parent_seed,
+            _ => *parent_counter,
+        };
+        spends.push(SpendSpec { parent_seed, amount, conds, quoted: rng.chance(1, 3) });
     }
     let total: usize = spends.iter().map(|s| s.conds.len()).sum();
     let tamper = if rng.below(100) < tamper_pct {
@@ -974,7 +1035,7 @@ fn gen_bundle(rng: &mut Rng, parent_counter: &mut u64, tamper_pct: u64) -> Bundl
             7 => Tamper::ChangeParent { spend: rng.below(nspends as u64) as u8 },
             8 => Tamper::SwapOpcode { cond, opcode: 43 + rng.below(8) as u8 },
             9 => Tamper::WrongDomain { cond, opcode: 43 + rng.below(8) as u8 },
-            _ => Tamper::UnsafeSuffix { cond, which: rng.below(7) as u8 },
+            _ => Tamper::UnsafeSuffix { cond, which: rng.below(14) as u8 },
         }
     } else {
         Tamper::None
@@ -1051,7 +1112,9 @@ impl Engine for C05 {
         let nbundles = if deep { rng.range(2, 3) as usize } else if rng.chance(1, 3) { 2 } else { 1 };
         let mut pc = rng.below(1 << 40);
         let tamper_pct = *rng.pick(&[0u64, 30, 60]);
-        let bundles: Vec<BundleSpec> = (0..nbundles).map(|_| gen_bundle(rng, &mut pc, tamper_pct)).collect();
+        let constants_seed = rng.next_u64();
+        let dconst = domain_constants(constants_seed);
+        let bundles: Vec<BundleSpec> = (0..nbundles).map(|_| gen_bundle(rng, &mut pc, tamper_pct, &dconst)).collect();
         let nthreads = if deep { rng.range(3, 4) as usize } else { rng.range(2, 3) as usize };
         let threads: Vec<Vec<Party>> = (0..nthreads)
             .map(|_| {
@@ -1068,9 +1131,11 @@ impl Engine for C05 {
         let nconds: usize = bundles.iter().map(|b| b.spends.iter().map(|s| s.conds.len()).sum::<usize>()).sum();
         let strategy = gen_strategy(rng, (nthreads * (2 * nconds + 4)) as u32);
         Case {
-            constants_seed: rng.next_u64(),
+            constants_seed,
             capacity: *rng.pick(&[1u32, 2, 3, 64]),
             cost_conditions: rng.chance(1, 2),
+            mempool_visitor: rng.chance(1, 3),
+            extra_flags: if rng.chance(1, 3) { rng.below(4) as u8 } else { 0 },
             bundles,
             prefix,
             threads,
